@@ -825,7 +825,9 @@ func (s *Scanner) tokSEMICOLON() token.Token {
 // and thus relative to the file set.
 func (s *Scanner) Scan() (pos token.Pos, tok token.Token, lit string) {
 scanAgain:
-	s.skipWhitespace()
+	if s.unitVal == "" { // a pending unit ends right at the current offset
+		s.skipWhitespace()
+	}
 
 	// current token start
 	pos = s.file.Pos(s.offset)
